@@ -448,6 +448,31 @@ def explicit_type_check(iff, body=None):
     return rejects
 
 
+def _type_cmp_holds(Sx, pc):
+    """the path condition says that an element's type (something derived from get_type()) equals a declared type"""
+    for op, l, r, fr, certain in sem.weak_cmps(pc):
+        tys = {norm(strip(l).get("ty", "")).lstrip("&"), norm(strip(r).get("ty", "")).lstrip("&")}
+
+        def from_gt(n_, fr_):
+            if any(y["m"] == "get_type" for y in exprs(n_, "MethodCall")):
+                return True
+            return any(b_.expr is not None and any(y["m"] == "get_type" for y in exprs(b_.expr, "MethodCall"))
+                       for b_ in sem.locals_in(Sx, n_, fr_))
+        if certain and op == "Eq" and tys <= {"types::Type", "types::CompoundType"} and from_gt(l, fr) != from_gt(r, fr):
+            return True
+    return False
+
+
+def _closure_guarded(E, hb, arg):
+    """every `Ok(..)` the producing closure (or a closure nested in it) hands on is built under a successful type comparison"""
+    clo = closure_of(arg)
+    if not clo:
+        return False
+    Sx = _sem_of(E, hb)
+    oks = [x for x in Sx.sites() if sem.within(x, clo) and x.node.get("k") == "Call" and norm(x.node.get("callee", "")) == "core::result::Result::Ok"]
+    return bool(oks) and all(_type_cmp_holds(Sx, x.pc) for x in oks)
+
+
 _SEM_CACHE = {}
 
 
@@ -533,7 +558,8 @@ def rule_elems(E, R):
                                 verdict = ("guarded", "a type comparison is known to have succeeded on the path to the store")
                 if verdict is None and c.get("k") == "MethodCall" and c["m"] == "collect":
                     root, ch = chain(c)
-                    kinds = [_closure_or_fn_kind(x["args"][0]) for x in ch if x["m"] == "map" and x.get("args")]
+                    kinds = [("guarded" if _closure_guarded(E, hb, x["args"][0]) else _closure_or_fn_kind(x["args"][0]))
+                             for x in ch if x["m"] == "map" and x.get("args")]
                     if "guarded" in kinds:
                         verdict = ("guarded", "elements pass a type comparison inside the producing closure")
                     elif kinds and all(k == "typed" for k in kinds):
